@@ -21,6 +21,9 @@ REQUIRED_THEOREMS = ["field_shadows_method_invoke", "field_shadows_method_get", 
 # the models were written against (Props/StateInventory)
 THEOREM_MODULES.append("Yarel.Props.StateInventory")
 REQUIRED_THEOREMS += ['state_of_classes']
+# who writes the state the mechanism models are about: the set of write sites per group of fields, regenerated on every run (Props/StateWrites)
+THEOREM_MODULES.append("Yarel.Props.StateWrites")
+REQUIRED_THEOREMS += ['writers_of_class_tables']
 LEVEL = "proof"
 ASSUMPTIONS = [
     "class-table model Yarel/Model/ClassTable.lean transcribes declare/inherit/method/define and the property/invoke/super paths of vm.rs "
